@@ -92,6 +92,7 @@ type scenarioOpts struct {
 	HandOnly   bool // only hand-built blocks (deterministic block content: comparable across processes)
 	ValHook    bool
 	Reopen     bool
+	Evidence   bool // one hand-built block carries duplicate-vote evidence against a validator (DoubleSign path of the application)
 	Staking    bool // delegate / undelegate / withdraw calls of the real validator contracts (validator power moves through the real application)
 }
 
@@ -153,6 +154,9 @@ func drawScenario(r *rand.Rand, quick bool, handOnly bool) scenarioOpts {
 	o.Reopen = r.Intn(2) == 0
 	if !o.ValHook && r.Intn(2) == 0 {
 		o.Staking = true
+	}
+	if !o.ValHook && o.NVals >= 3 && r.Intn(2) == 0 {
+		o.Evidence = true
 	}
 	return o
 }
@@ -257,6 +261,7 @@ func runScenario(cs *core.Case, r *rand.Rand, o scenarioOpts, tag string) *finge
 		return m
 	}
 	lastCommit := chainkit.EmptyCommit()
+	evidenceAt := 3 + r.Intn(2)
 	reopenAt := -1
 	if o.Reopen {
 		reopenAt = o.Heights // before the last block
@@ -313,6 +318,16 @@ func runScenario(cs *core.Case, r *rand.Rand, o scenarioOpts, tag string) *finge
 		if !o.HandOnly && r.Intn(2) == 0 {
 			mode = "CreateProposalBlock"
 		}
+		var evidence []types.Evidence
+		if o.Evidence && h == evidenceAt {
+			mode = "hand-built"
+			if ev, err := bch.DuplicateVote(1+r.Intn(o.NVals-1), height-1-uint64(r.Intn(2))); err == nil {
+				evidence = append(evidence, ev)
+				mode = "hand-built+evidence"
+			} else {
+				run.Count("evidence_not_built", 1)
+			}
+		}
 		var blk *types.Block
 		var ps *types.PartSet
 		var txs []*types.Transaction
@@ -338,7 +353,7 @@ func runScenario(cs *core.Case, r *rand.Rand, o scenarioOpts, tag string) *finge
 			if si != nil {
 				gl = 30000000 // staking calls carry a gas limit of 5,000,000
 			}
-			blk, ps = bch.HandBlock(lastCommit, gl, txs)
+			blk, ps = bch.HandBlock(lastCommit, gl, txs, evidence...)
 		}
 		if blk == nil {
 			run.Inconclusive(fmt.Sprintf("no block built at height %d (case %s:%d)", h, cs.Group, cs.I))
@@ -452,6 +467,9 @@ func runScenario(cs *core.Case, r *rand.Rand, o scenarioOpts, tag string) *finge
 			if rel == "reopened-database" {
 				run.Count("comparisons_with_reopened_replica", 1)
 			}
+		}
+		if len(evidence) > 0 {
+			run.Count("blocks_with_evidence", 1)
 		}
 		if mode == "CreateProposalBlock" {
 			run.Count("proposer_built_blocks", 1)
